@@ -27,4 +27,4 @@ else
 fi
 cd /verif
 echo "--- ./check $P $TIER WITH patch"
-VERIF_REPO=$WT VERIF_NOEVIDENCE=1 ./check $P --tier $TIER 2>/dev/null | cut -c1-300 | head -6; echo "rc=${PIPESTATUS[0]}"
+VERIF_REPO=$WT VERIF_NOEVIDENCE=1 ./check $P --tier $TIER > $WT.out 2>/dev/null; RC=$?; cut -c1-300 $WT.out | head -6; echo "rc=$RC"; rm -f $WT.out
